@@ -300,6 +300,29 @@ func c09Cases(c *Ctx) []rawCase {
 			add("unordered:"+form+":"+strings.NewReplacer(" ", "", "{", "", "}", "").Replace(T), form+" over "+T, "package p\n\n"+decl+body+"\n", true, "NB", "NC", "min", "max", "sort")
 		}
 	}
+	// ---- types that are not ==-comparable for a reason other than a slice/map/func field proper ------
+	// (a blank field, an array of length 0, a nested struct): plugins that choose between a Go map key
+	// and the hash/equal path must take the latter, or say why not
+	ncDecl := "type KBlank struct {\n\tA int\n\t_ [0]func()\n}\n\ntype KZeroArr struct {\n\tA string\n\tZ [0][]int\n}\n\ntype KNested struct {\n\tA int\n\tIn struct{ _ []byte }\n}\n\n"
+	for _, T := range []string{"KBlank", "KZeroArr", "KNested"} {
+		for _, nc := range []struct{ name, body string }{
+			{"mem", "func f(k " + T + ") int { return k.A0() }\n\nfunc (k " + T + ") A0() int { return 1 }\n\nfunc use() func(" + T + ") int { return deriveMem(f) }"},
+			{"unique", "func use(l []" + T + ") []" + T + " { return deriveUnique(l) }"},
+			{"contains", "func use(l []" + T + ", x " + T + ") bool { return deriveContains(l, x) }"},
+			{"union", "func use(a, b []" + T + ") []" + T + " { return deriveUnion(a, b) }"},
+			{"intersect", "func use(a, b []" + T + ") []" + T + " { return deriveIntersect(a, b) }"},
+			{"equal", "func use(a, b " + T + ") bool { return deriveEqual(a, b) }"},
+			{"hash", "func use(a " + T + ") uint64 { return deriveHash(a) }"},
+			{"clone", "func use(a []" + T + ") []" + T + " { return deriveClone(a) }"},
+			{"compare", "func use(a, b " + T + ") int { return deriveCompare(a, b) }"},
+			{"gostring", "func use(a " + T + ") string { return deriveGoString(a) }"},
+			{"deepcopy", "func use(a, b *" + T + ") { deriveDeepCopy(a, b) }"},
+			{"sort", "func use(a []" + T + ") []" + T + " { return deriveSort(a) }"},
+			{"set", "func use(a []" + T + ") int { return len(deriveSet(a)) }"},
+		} {
+			add("noncomparable:"+nc.name+":"+T, nc.name+" over the non-comparable struct "+T, "package p\n\n"+ncDecl+nc.body+"\n", true, nc.name, T)
+		}
+	}
 	// ---- argument shapes for every plugin ------------------------------------------------------
 	plugins := []string{"All", "Any", "Apply", "Clone", "Compare", "Compose", "Contains", "Curry", "DeepCopy", "Do", "Dup", "Equal", "Filter", "Flip", "Fmap", "GoString", "Hash", "Intersect", "Join", "Keys", "Max", "Mem", "Min", "Pipeline", "Set", "Sort", "TakeWhile", "ToError", "Traverse", "Tuple", "Uncurry", "Union", "Unique"}
 	argShapes := []struct{ name, args, pre string }{
@@ -312,6 +335,11 @@ func c09Cases(c *Ctx) []rawCase {
 		{"int-func", "3, f", "func f(x int) int { return x }\n"},
 		{"variadic", "v", "func v(a int, rest ...string) int { return a }\n"},
 		{"variadic2", "v, 1", "func v(a int, rest ...string) int { return a }\n"},
+		{"variadic3", "v3", "func v3(a int, b string, rest ...int) int { return a }\n"},
+		{"variadic3-arg", "v3, 1", "func v3(a int, b string, rest ...int) int { return a }\n"},
+		{"variadic4-same", "v4", "func v4(a, b, c int, rest ...int) (int, error) { return a, nil }\n"},
+		{"variadic-only", "vo", "func vo(rest ...int) int { return len(rest) }\n"},
+		{"variadic-literal", "func(a string, b bool, rest ...float64) bool { return b }", ""},
 		{"func-noresult", "g", "func g(x, y int) {}\n"},
 		{"func-noparam", "h", "func h() {}\n"},
 		{"two-funcs-mismatch", "f, k", "func f(x int) (int, error) { return x, nil }\nfunc k(s string) (string, error) { return s, nil }\n"},
@@ -329,7 +357,10 @@ func c09Cases(c *Ctx) []rawCase {
 			}
 			src := "package p\n\n" + sh.pre + "\nfunc use() { derive" + pl + "(" + sh.args + ") }\n"
 			// whether the emitted function's results are used does not matter; the call is a statement
-			add("args:"+strings.ToLower(pl)+":"+sh.name, fmt.Sprintf("derive%s(%s)", pl, sh.args), src, false, strings.ToLower(pl), "derive"+pl)
+			// a call whose only argument is a (variadic) function value type-checks against whatever function
+			// goderive agrees to emit for it: accepted means the package must compile
+			wellTyped := strings.HasPrefix(sh.name, "variadic") && !strings.Contains(sh.args, ",") || sh.name == "variadic-literal"
+			add("args:"+strings.ToLower(pl)+":"+sh.name, fmt.Sprintf("derive%s(%s)", pl, sh.args), src, wellTyped, strings.ToLower(pl), "derive"+pl)
 		}
 	}
 	// ---- two named types with the same underlying type under one plugin ------------------------------
